@@ -146,3 +146,83 @@ class DefUse:
 
 def mentions(expr: ast.AST, text: str) -> bool:
     return text in norm(expr)
+
+
+class Canon:
+    """Alpha-normalisation of expressions inside one function: every local variable is replaced by what it stands for, so that
+    rules can be written over parameters, attributes, literals and call names only and are insensitive to the naming of locals.
+
+      single plain assignment      x -> canon(value)
+      tuple unpack `a, b = v`      a -> canon(v)[0]
+      loop / comprehension target  x -> ELEM(canon(iterable))        (ELEMk for the k-th element of a tuple target)
+      several definitions          x -> ANY(canon(d1), canon(d2), ...)   (sorted, duplicates removed)
+      recursion through itself     x -> REC
+    """
+
+    def __init__(self, f: Func, max_depth: int = 7) -> None:
+        self.f = f
+        self.du = DefUse(f)
+        self.max_depth = max_depth
+
+    def node(self, e: ast.AST, _stack: tuple[str, ...] = (), _depth: int = 0) -> ast.AST:
+        c = self
+
+        class T(ast.NodeTransformer):
+            def visit_Name(self, n: ast.Name) -> ast.AST:  # noqa: N802
+                if not isinstance(n.ctx, ast.Load) or n.id in c.du.params and n.id not in c.du.defs:
+                    return n
+                if n.id not in c.du.defs:
+                    return n
+                if n.id in _stack or _depth >= c.max_depth:
+                    return ast.Name(id="REC", ctx=ast.Load())
+                alts = []
+                for v, how, _st in c.du.defs[n.id]:
+                    if how == "elem-add":
+                        continue
+                    cv = c.node(v, _stack + (n.id,), _depth + 1)
+                    if how == "assign":
+                        alts.append(cv)
+                    elif how.startswith("assign["):
+                        import re as _re
+
+                        node2: ast.AST = cv
+                        for ix in _re.findall(r"\[(\d+)\]", how):
+                            node2 = ast.Subscript(value=node2, slice=ast.Constant(value=int(ix)), ctx=ast.Load())
+                        alts.append(node2)
+                    elif how.startswith("elem"):
+                        import re as _re
+
+                        node_: ast.AST = ast.Call(func=ast.Name(id="ELEM", ctx=ast.Load()), args=[cv], keywords=[])
+                        for ix in _re.findall(r"\[(\d+)\]", how):
+                            node_ = ast.Subscript(value=node_, slice=ast.Constant(value=int(ix)), ctx=ast.Load())
+                        alts.append(node_)
+                    elif how == "aug":
+                        alts.append(ast.Call(func=ast.Name(id="AUG", ctx=ast.Load()), args=[cv], keywords=[]))
+                    else:
+                        alts.append(ast.Call(func=ast.Name(id=how.upper(), ctx=ast.Load()), args=[cv], keywords=[]))
+                if n.id in c.du.params:
+                    alts.append(ast.Name(id=n.id, ctx=ast.Load()))
+                uniq: dict[str, ast.AST] = {}
+                for a in alts:
+                    uniq.setdefault(" ".join(ast.unparse(a).split()), a)
+                if not uniq:
+                    return n
+                if len(uniq) == 1:
+                    return next(iter(uniq.values()))
+                return ast.Call(func=ast.Name(id="ANY", ctx=ast.Load()), args=[uniq[k] for k in sorted(uniq)], keywords=[])
+
+        import copy
+
+        return ast.fix_missing_locations(T().visit(copy.deepcopy(e)))
+
+    def text(self, e: ast.AST | None) -> str:
+        if e is None:
+            return ""
+        return " ".join(ast.unparse(self.node(e)).split())
+
+    def alts(self, e: ast.AST) -> list[str]:
+        """Canonical texts an expression may stand for (the alternatives of a top-level ANY are split)."""
+        n = self.node(e)
+        if isinstance(n, ast.Call) and isinstance(n.func, ast.Name) and n.func.id == "ANY":
+            return [" ".join(ast.unparse(a).split()) for a in n.args]
+        return [" ".join(ast.unparse(n).split())]
